@@ -209,7 +209,7 @@ func (r *Runner) checkProperty(spec *PropSpec) int {
 			"trusted_base": trusted, "samples": samples, "explanation": expl,
 			"functions_under_contract": funcs, "by_kind": kinds, "by_backend": bySolver, "solver_ms_total": res.solverMs,
 			"vacuity_covers": covers, "vacuity_covers_sat": coverOK, "known_findings_printed": knownPrinted, "failed": failedNames,
-			"load_ms": r.loadMs,
+			"load_ms": r.loadMs, "functions_not_verified": res.skipped,
 		},
 		Assumptions: append(append([]string{}, spec.Assume...), externs...),
 	}
